@@ -604,7 +604,11 @@ func cmdSelftestDeterminism(args []string) int {
 	total := 0
 	for _, prop := range plist {
 		for _, p := range props.Profiles(prop) {
-			for s := 0; s < nSeeds; s++ {
+			n := nSeeds
+			if p.ThoroughOnly { // long runs of code that the base profile already covers
+				n = 1
+			}
+			for s := 0; s < n; s++ {
 				seed := chooser.Mix(uint64(envInt("VERIF_SEED", 1)), "det/"+p.Name, uint64(s))
 				var hashes []string
 				for _, gmp := range []string{"1", "4", "16"} {
